@@ -1,5 +1,6 @@
 """./check <Cxx> [--tier quick|thorough] | --replay <file> | --relock | --list"""
 import argparse
+import re
 import json
 import multiprocessing as mp
 import os
@@ -15,13 +16,15 @@ from pyvc.source import Source, src_root          # noqa
 from pyvc import registry                          # noqa
 
 SPEC_PATH = os.path.join(HERE, 'spec', 'rp66.py')
+# runs against another source tree (PYVC_SRC: mutant / scratch copies) must not overwrite the evidence of the real tree
+OUT = HERE if src_root() == '/repo/src/dliswriter' else os.path.join(os.environ.get('VERIF_SCRATCH', '/var/tmp'), 'pyvc_out_%d' % os.getpid())
 LOCK_PATH = os.path.join(HERE, 'obligations.lock.json')
 FINDINGS_PATH = os.path.join(HERE, 'known_findings.txt')
 VENV_PY = '/venv/bin/python'
 
 
 def worker(job):
-    key, tier = job
+    key, tier, shard, nshards = job
     import z3
     from pyvc.verify import Executor, explore
     from pyvc.solve import discharge, to_smt2, hyps_consistent
@@ -46,6 +49,7 @@ def worker(job):
         out['paths'] = len(res)
         timeout_ms = 10000 if tier == 'quick' else 60000
         portfolio = 'fallback' if tier == 'quick' else 'all'
+        ob_index = 0
         for pr in res:
             if pr.error:
                 continue
@@ -58,6 +62,9 @@ def worker(job):
             if feas != 'unsat' and pr.outcome and pr.outcome[0] in ('normal', 'raise'):
                 out['feasible_paths'] += 1
             for ob in pr.obligations:
+                ob_index += 1
+                if ob_index % nshards != shard:
+                    continue          # discharged by another worker process (the exploration is cheap and repeated per shard)
                 def on_model(m, pr=pr):
                     return {'inputs': concrete_inputs(pr.inputs, m, pr_old_heap(pr)),
                             'model': {str(d): str(m[d])[:200] for d in list(m.decls())[:60]}}
@@ -121,9 +128,9 @@ def run_replay_file(path, src=None):
 
 
 def write_replay(prop, key, rec, contract, src, n):
-    os.makedirs(os.path.join(HERE, 'replays'), exist_ok=True)
+    os.makedirs(os.path.join(OUT, 'replays'), exist_ok=True)
     safe = rec['key'].replace('/', '_').replace(':', '_').replace('[', '_').replace(']', '_').replace('#', '_').replace('@', '_')
-    path = os.path.join(HERE, 'replays', f'{prop}_{safe}_{n}.json')
+    path = os.path.join(OUT, 'replays', f'{prop}_{safe}_{n}.json')
     target = contract.get('target', key)
     cname = target.rpartition('.')[0]
     fn_is_method = bool(cname)
@@ -164,8 +171,21 @@ def check_property(prop, tier, seed, relock=False):
         print(f'CHECKER-ERROR property={prop}: no contracts registered')
         return 3
     nproc = int(os.environ.get('PYVC_JOBS', '16'))
-    with mp.Pool(min(nproc, max(1, len(keys)))) as pool:
-        results = pool.map(worker, [(k, tier) for k in keys], chunksize=1) if keys else []
+    nshards = 1 if len(keys) > 16 else (2 if len(keys) > 8 else (4 if len(keys) > 3 else 8))
+    jobs = [(k, tier, sh, nshards) for k in keys for sh in range(nshards)]
+    with mp.Pool(min(nproc, max(1, len(jobs)))) as pool:
+        shard_results = pool.map(worker, jobs, chunksize=1) if keys else []
+    merged = {}
+    for r in shard_results:
+        m_ = merged.get(r['key'])
+        if m_ is None:
+            merged[r['key']] = r
+        else:
+            m_['obligations'].extend(r['obligations'])
+            m_['unsupported'] = sorted(set(m_['unsupported']) | set(r['unsupported']))
+            m_['error'] = m_['error'] or r['error']
+            m_['seconds'] = max(m_.get('seconds') or 0, r.get('seconds') or 0)
+    results = list(merged.values())
     # ---- aggregate
     agg = {}
     by_backend = {}
@@ -181,7 +201,8 @@ def check_property(prop, tier, seed, relock=False):
         if not r['error'] and not r['unsupported'] and r['feasible_paths'] == 0:
             checker_errors.append(f"{r['key']}: vacuous - no feasible path reaches an exit (contradictory requires?)")
         for o in r['obligations']:
-            if '@' in o['key'] and prop not in o['key'].rsplit('@', 1)[1].split(','):
+            m_tag = re.search(r'@(C\d+(?:,C\d+)*)$', o['key'])
+            if m_tag and prop not in m_tag.group(1).split(','):
                 continue        # a clause tagged  name@Cxx[,Cyy]  belongs to those properties only
             total += 1
             a = agg.setdefault(o['key'], {'key': o['key'], 'function': r['key'], 'instances': 0, 'status': 'discharged', 'aux': o['aux'], 'seconds': 0.0,
@@ -289,6 +310,17 @@ def check_property(prop, tier, seed, relock=False):
                     checker_errors.append(f"finding witness {f['witness']} crashed: {pr_.stderr[-300:]}")
             except Exception as e:
                 checker_errors.append(f"finding witness {f['witness']}: {e!r}")
+    # ---- axiom validation against the installed interpreter / libraries (bounded evidence about the trusted base, every run)
+    axiom_info = None
+    try:
+        env = dict(os.environ)
+        env['VERIF_SEED'] = str(seed)
+        pr_ = subprocess.run([VENV_PY, os.path.join(HERE, 'bounded', 'axioms.py')], capture_output=True, text=True, timeout=900, env=env)
+        axiom_info = json.loads(pr_.stdout.strip().splitlines()[-1])
+        for v in axiom_info.get('violations', []):
+            checker_errors.append(f"axiom validation failed (the trusted base does not match the installed library): {v}")
+    except Exception as e:
+        checker_errors.append(f'axiom validation did not run: {e!r}')
     # ---- report
     discharged = sum(1 for a in agg.values() if a['status'] == 'discharged')
     for ln in known_lines:
@@ -327,6 +359,7 @@ def check_property(prop, tier, seed, relock=False):
             'samples': [{'key': a['key'], 'function': a['function'], 'instances': a['instances'], 'status': a['status']} for a in list(agg.values())[:8]],
             'explanation': reg.explanations.get(prop, ''),
             'bounded_standins': (extra_info or {}).get('bounded', []),
+            'axiom_validation': (axiom_info or {}).get('checks'),
             'extra': {k: v for k, v in (extra_info or {}).items() if k not in ('violations', 'errors', 'undecided', 'bounded')},
             'source_root': src.root,
         },
@@ -334,8 +367,8 @@ def check_property(prop, tier, seed, relock=False):
         'wall_s': round(wall, 2),
         'violations': len(violations),
     }
-    os.makedirs(os.path.join(HERE, 'evidence'), exist_ok=True)
-    json.dump(ev, open(os.path.join(HERE, 'evidence', f'{prop}.json'), 'w'), indent=1)
+    os.makedirs(os.path.join(OUT, 'evidence'), exist_ok=True)
+    json.dump(ev, open(os.path.join(OUT, 'evidence', f'{prop}.json'), 'w'), indent=1)
     print(f'{prop} [{tier}]: {n_keys} obligations ({total} path instances) over {len(keys)} functions; discharged {discharged}, '
           f'known findings {known_n}, violations {len(violations)}, undecided {len(undecided) + len(unsupported) + len(missing)}; {wall:.1f}s')
     if checker_errors:
